@@ -210,6 +210,14 @@ def execute(acc, case):
         try:
             if sc.role == "client":
                 sc.listen()
+            if case.get("custom_base") is not None:
+                # the application supplies some of the base-message templates itself (Diameter.get_base_messages([...])); the
+                # others are filled in by the library
+                from bromelia.proxy import DiameterBaseProxy as P
+                node = sc.make_node()
+                loaders = {"cer": P.load_cer, "cea": P.load_cea, "dwr": P.load_dwr, "dwa": P.load_dwa, "dpr": P.load_dpr, "dpa": P.load_dpa}
+                node._base = node.get_base_messages([loaders[k](node._connection) for k in case["custom_base"]])
+                acc.counters["nodes_with_custom_base_templates"] += 1
             for round_no in range(case["rounds"]):
                 sc.consumed = []
                 wit["_offset"] = 0
@@ -410,7 +418,8 @@ def main(tier, seed):
         cases.append({"seed": seed * 1009 + i, "role": rng.choice(["client", "server"]), "n": rng.choice([1, 2, 3, 6, 12]),
                       "back_to_back": rng.random() < 0.5, "strategy": rng.choice(["rr", "rr", "rw"]), "p": rng.choice([0.02, 0.1]),
                       "rounds": rng.choice([1, 1, 2, 3]), "flood": rng.choice([0, 0, 0, 6]), "transport": rng.choice(["TCP", "TCP", "TCP", "SCTP"]),
-                      "app_base_answers": (0, 0, 0, 4, 8)[i % 5]})
+                      "app_base_answers": (0, 0, 0, 4, 8)[i % 5],
+                      "custom_base": None if i % 4 else rng.sample(["cer", "cea", "dwr", "dwa", "dpr", "dpa"], rng.choice([1, 1, 2, 3, 5]))})
     for i in range(24 if q else 2000):
         cases.append({"seed": seed * 1013 + i, "role": rng.choice(["client", "server"]), "n": rng.choice([2, 3, 5]), "back_to_back": True,
                       "strategy": rng.choice(["rr", "rw"]), "p": 0.05, "rounds": 1, "flood": 0, "backlog": rng.choice([12, 24])})
@@ -434,7 +443,7 @@ def main(tier, seed):
                           ["the peer is scripted by the driver task; answers are read from the bytes the node wrote to the substituted socket",
                            "identifier pairs are sampled (boundary + random), not enumerated over 2^64",
                            "emission order is decided on scheduler steps: the send() that carried the answer's last byte vs the step at which the state machine took the next inbound message"],
-                          t0, require_counters=("answers_seen", "connections", "reconnects", "ordering_checked", "backlog_cases", "real_loopback_ok", "stray_base_answers_injected", "application_base_answers_submitted", "twin_node_executions", "twin_node_parked", "backlog_race_executions", "backlog_race_parked"))
+                          t0, require_counters=("answers_seen", "connections", "reconnects", "ordering_checked", "backlog_cases", "real_loopback_ok", "stray_base_answers_injected", "application_base_answers_submitted", "nodes_with_custom_base_templates", "twin_node_executions", "twin_node_parked", "backlog_race_executions", "backlog_race_parked"))
 
 
 def replay(w):
